@@ -54,6 +54,7 @@ Do(s, o) ==
       [] s[1] = "fromdict" -> FromDict(SrcMap(s[2]), o)
       [] s[1] = "mutsrc"   -> o = "ok" /\ MutSrc(s[2], s[3])
       [] s[1] = "open"     -> Open(o)
+      [] s[1] = "occupy"   -> o = "ok" /\ Occupy(s[2])
 
 -----------------------------------------------------------------------------
 (* GraphSpec: full alphabet, no history; one named action per operation and outcome class *)
@@ -64,6 +65,7 @@ AllSyms ==
     \cup {<<op, 0, 0>> : op \in {"len", "iter", "clear", "sync", "close", "create", "open"}}
     \cup {<<"fromdict", n, 0>> : n \in SrcSizes}
     \cup {<<"mutsrc", k, v>> : k \in Keys, v \in Vals \cup {Absent}}
+    \cup {<<"occupy", kind, 0>> : kind \in {0, 1}}
 SymsOf(op) == {s \in AllSyms : s[1] = op}
 Refusals == Outcomes \ {"ok"}
 
@@ -94,6 +96,7 @@ G_fromdict_ref == \E s \in SymsOf("fromdict"), o \in Refusals : Do(s, o) /\ UNCH
 G_open_ok  == \E s \in SymsOf("open") : Do(s, "ok") /\ UNCHANGED hist
 G_open_ref == \E s \in SymsOf("open"), o \in Refusals : Do(s, o) /\ UNCHANGED hist
 G_mutsrc  == \E s \in SymsOf("mutsrc") : Do(s, "ok") /\ UNCHANGED hist
+G_occupy  == \E s \in SymsOf("occupy") : Do(s, "ok") /\ UNCHANGED hist
 
 GraphInit == PInit /\ hist = <<>>
 GraphNext ==
@@ -124,6 +127,7 @@ GraphNext ==
     \/ G_open_ok
     \/ G_open_ref
     \/ G_mutsrc
+    \/ G_occupy
 GraphSpec == GraphInit /\ [][GraphNext]_mcvars
 
 HandleSyms == {s \in AllSyms : s[1] \in {"set", "get", "del", "in", "len", "iter", "getd", "clear", "sync"}}
@@ -147,7 +151,7 @@ OpenMissingRefused == (~exists) => \A o \in Outcomes : ENABLED Do(<<"open", 0, 0
 (* HistSpec: the generator *)
 Max(S) == IF S = {} THEN 0 ELSE CHOOSE x \in S : \A y \in S : y <= x
 
-KeyOf(s) == IF s[1] \in KeyedOps THEN s[2] ELSE IF s[1] = "fromdict" THEN s[2] ELSE 0
+KeyOf(s) == IF s[1] \in KeyedOps THEN s[2] ELSE IF s[1] = "fromdict" THEN s[2] ELSE 0      \* ("occupy" carries a kind, not a key)
 ValOf(s) == IF s[1] \in {"set", "mutsrc"} /\ s[3] > 0 THEN s[3] ELSE IF s[1] = "fromdict" THEN s[2] ELSE 0
 KeysSeen == Max({KeyOf(hist[i]) : i \in 1..Len(hist)})
 ValsSeen == Max({ValOf(hist[i]) : i \in 1..Len(hist)})
@@ -168,6 +172,7 @@ Syms ==
             \cup {<<"fromdict", n, 0>> : n \in (IF exists THEN {1} ELSE SrcSizes)}
           ELSE {})
     \cup (IF linked THEN {<<"mutsrc", k, v>> : k \in UKeys, v \in UVals \cup {Absent}} ELSE {})
+    \cup (IF st = "none" /\ ~exists THEN {<<"occupy", kind, 0>> : kind \in {0, 1}} ELSE {})
 
 HistInit == PInit /\ hist = <<>>
 HistNext == /\ Len(hist) < D
